@@ -5,6 +5,7 @@ set -e
 cd /verif
 export GOFLAGS=-mod=mod GOPROXY=off GOSUMDB=off GOTOOLCHAIN=local
 go build -o /dev/null ./cmd/verif
+[ -f /repo/lzma/export_verif.go ] && go build -tags verif -o /dev/null ./cmd/verif
 go vet ./internal/ref/ ./internal/tlc/ ./internal/hx/
 command -v tlc >/dev/null || { echo "tlc missing" >&2; exit 1; }
 echo "setup ok"
